@@ -51,6 +51,8 @@ TEMPLATES = {
     # named blocks of a translation: the mapping reaches the translation function in one order in every process
     "namesorder": '<p i18n:translate="">A <b i18n:name="zeta">${x}</b> B <i i18n:name="alpha">1</i> C <u i18n:name="mid_1">2</u> '
                   'D <s i18n:name="beta9">3</s> E <em i18n:name="omega">4</em></p>',
+    # an XML document (decided from its declaration when the file is read): no implicit boolean attributes, CRLF kept
+    "xmldoc": '<?xml version="1.0"?>\r\n<a><input checked="${bool(x)}" disabled="${not x}" />\r\n<b tal:repeat="i y">${i}</b></a>',
     # collections of names inside the compiler (attributes named only in i18n:attributes, several dynamic attributes,
     # declarations, slots, macros): their order in the output is the document's, in every process
     "i18nattrs": '<img src="x" i18n:attributes="title; alt; longdesc; summary; label; accesskey" />'
